@@ -59,6 +59,14 @@ def insertSortedPair (x : Int × Rat) : List (Int × Rat) → List (Int × Rat)
 
 def optNat : Option Nat → String | none => "-" | some n => toString n
 
+def parseMode (s : String) : Option EdgeMode :=
+  if s == "keep" then some .keep else if s == "support" then some .support else if s == "clear" then some .clear
+  else if s == "mean-length" then some .meanLen else if s == "median-length" then some .medianLen else none
+
+def renderAnn (a : NodeAnn) : String :=
+  s!"{a.id};{a.split};{rr a.support};" ++ (a.label.getD "-") ++ ";" ++ (match a.length with | none => "N" | some l => rr l) ++ ";"
+    ++ (match a.summary with | none => "none" | some none => "-" | some (some st) => renderStats st)
+
 def handle (ws : List String) : String :=
   match ws with
   | "summ" :: useW :: mf :: incl :: all :: k :: rest =>
@@ -96,7 +104,9 @@ def handle (ws : List String) : String :=
       | some (ts, r :: rest2) =>
         match parseRooted r, parseTree rest2 with
         | some r, some (t, []) =>
-          match collapseBelow (countAll (useW == "1") ts) mf r t with
+          -- thresholds <= 0 are outside the model (the code flags a split ABSENT from the table whatever the threshold)
+          if mf ≤ 0 then "bad-threshold" else
+          match collapseCall (countAll (useW == "1") ts) mf r t with
           | none => "E"
           | some t' => t'.render
         | _, _ => "bad-target"
@@ -123,6 +133,23 @@ def handle (ws : List String) : String :=
         | _, _ => "bad-target"
       | _ => "bad-trees"
     | none => "bad-op"
+  | "annot2" :: useW :: pct :: lab :: dec :: mode :: minl :: n :: rest =>
+    -- everything one summarising call writes on the nodes of a target (pre-order of its default encoding):
+    -- `id;split;support;label|-;length|N;none|-|summary`, or `E` when the call refuses
+    match n.toNat?, dec.toNat?, parseORat minl, parseMode mode with
+    | some n, some dec, some minl, some mode =>
+      match parseTreeRecs n rest with
+      | some (ts, r :: rest2) =>
+        match parseRooted r, parseTree rest2 with
+        | some r, some (t, []) =>
+          let sd := countAll (useW == "1") ts
+          let o : SummOpts := { pct := pct == "1", label := lab == "1", decimals := dec, mode := mode, minLen := minl }
+          match annotate sd o r t with
+          | none => "E"
+          | some anns => " ".intercalate (anns.map renderAnn)
+        | _, _ => "bad-target"
+      | _ => "bad-trees"
+    | _, _, _, _ => "bad-op"
   | _ => "bad-op"
 
 def main : IO Unit := do driverLoop (← IO.getStdin) handle
